@@ -263,6 +263,166 @@ Proof.
   - intros H; injection H as <- <-. split; [reflexivity|auto].
 Qed.
 
+(* ------------------------------------------------------------ eighth round: header= predicates *)
+From Coq Require Import Permutation.
+
+Definition header_req_holds (O : oracle) (hs : list (text * text)) (q : hreq) : Prop :=
+  exists value, hdr_get hs (fst (fst q)) = Some value /\
+    match snd (fst q) with None => True | Some atoms => re_match O atoms value = true end.
+
+Lemma header_req_ok_spec O hs q : header_req_ok O hs q = true <-> header_req_holds O hs q.
+Proof.
+  unfold header_req_ok, header_req_holds, hdr_mem. destruct (snd (fst q)) as [atoms|]; destruct (hdr_get hs (fst (fst q))) as [v|].
+  - split; [intros H; exists v; auto|intros (v' & Hv & H); injection Hv as <-; exact H].
+  - split; [discriminate|intros (v' & Hv & _); discriminate].
+  - split; [intros _; exists v; auto|reflexivity].
+  - split; [discriminate|intros (v' & Hv & _); discriminate].
+Qed.
+
+(* the predicate holds iff EVERY requirement holds: a bare name is present, a name with a regex is
+   present with a value the regex matches *)
+Theorem header_call_spec O reqs hs :
+  header_call_model O reqs hs = true <-> Forall (header_req_holds O hs) reqs.
+Proof.
+  unfold header_call_model. rewrite forallb_forall, Forall_forall.
+  split; intros H x Hx; apply header_req_ok_spec, H, Hx.
+Qed.
+
+(* the order in which as_sorted_tuple puts the requirements cannot matter *)
+Lemma forallb_perm {A} (f : A -> bool) l l' : Permutation l l' -> forallb f l = forallb f l'.
+Proof.
+  induction 1; cbn [forallb]; try congruence.
+  - destruct (f x), (f y); reflexivity.
+Qed.
+
+Theorem header_call_order_irrelevant O reqs reqs' hs :
+  Permutation reqs reqs' -> header_call_model O reqs hs = header_call_model O reqs' hs.
+Proof. apply forallb_perm. Qed.
+
+Theorem param_call_order_irrelevant reqs reqs' ps :
+  Permutation reqs reqs' -> param_call_model reqs ps = param_call_model reqs' ps.
+Proof. apply forallb_perm. Qed.
+
+(* one requirement that does not hold refutes the predicate, wherever it stands *)
+Theorem header_call_all_required O pre q post hs :
+  header_req_ok O hs q = false -> header_call_model O (pre ++ q :: post) hs = false.
+Proof.
+  intros H. unfold header_call_model. rewrite forallb_app. cbn [forallb]. rewrite H.
+  destruct (forallb _ pre); reflexivity.
+Qed.
+
+(* header names are looked up case-insensitively, '-' and '_' alike *)
+Theorem hdr_get_key_only hs n n' : hdr_key n = hdr_key n' -> hdr_get hs n = hdr_get hs n'.
+Proof. intros H. induction hs as [|[k v] r IH]; [reflexivity|]. cbn [hdr_get]. rewrite H, IH. reflexivity. Qed.
+
+Theorem xresolve_h_model e x : xresolve_h model_pcalls e x = xresolve param_call_model e x.
+Proof. destruct x; reflexivity. Qed.
+
+Lemma xbuild_h_model nf pf xs e : xbuild_h model_pcalls nf pf xs e = xbuild param_call_model nf pf xs e.
+Proof.
+  unfold xbuild_h, xbuild. f_equal. apply map_ext. intros x. unfold xdecl_resolve_h, xdecl_resolve. do 3 f_equal.
+  apply map_ext. intros q. apply xresolve_h_model.
+Qed.
+
+(* HeaderPredicate.__call__ / XHRPredicate.__call__ regenerated from the source equal the references
+   (loop taken apart by induction; case split on the ATOMS: regex present or not, header lookup,
+   membership, regex verdict) *)
+Theorem gen_header_call_is_model O reqs hs : gen_header_call O reqs hs = header_call_model O reqs hs.
+Proof.
+  unfold gen_header_call, header_call_model.
+  induction reqs as [|q r IH]; [reflexivity|].
+  cbv beta match fix. cbn [forallb]. unfold header_req_ok at 1. unfold hdr_mem.
+  destruct (snd (fst q)) as [atoms|].
+  - destruct (hdr_get hs (fst (fst q))) as [value|]; [|reflexivity].
+    destruct (re_match O atoms value); cbn [andb negb]; [apply IH|reflexivity].
+  - destruct (hdr_get hs (fst (fst q))) as [value|]; cbn [andb negb]; [apply IH|reflexivity].
+Qed.
+
+Theorem gen_xhr_call_is_model val xhr : gen_xhr_call val xhr = xhr_call_model val xhr.
+Proof. unfold gen_xhr_call, xhr_call_model. destruct val, xhr; reflexivity. Qed.
+
+Theorem gen_method_call_is_model val method : gen_method_call val method = method_call_model val method.
+Proof. reflexivity. Qed.
+
+Definition gen_pcalls : pcalls := mkPcalls gen_param_call gen_header_call gen_xhr_call gen_method_call.
+
+Lemma xresolve_h_gen_is_model e q : xresolve_h gen_pcalls e q = xresolve param_call_model e q.
+Proof.
+  (* no [rewrite] for the one-line predicates: their reference is convertible to an instance of the generated term
+     with the arguments swapped, which a rewrite up to conversion would hit as well *)
+  destruct q as [p|n vs|n b|tp|n vs|n vs]; unfold xresolve_h, xresolve, gen_pcalls; cbn [k_param k_header k_xhr k_method].
+  - reflexivity.
+  - do 2 f_equal; try reflexivity; exact (gen_param_call_is_model _ _).
+  - do 2 f_equal; try reflexivity; exact (gen_xhr_call_is_model _ _).
+  - reflexivity.
+  - unfold header_verdict. destruct (header_init_model vs); [|reflexivity]. do 2 f_equal; try reflexivity; exact (gen_header_call_is_model _ _ _).
+  - do 2 f_equal; try reflexivity; exact (gen_method_call_is_model _ _).
+Qed.
+
+Lemma xbuild_h_gen_is_model xs e :
+  xbuild_h gen_pcalls gen_nest_prefix gen_prefix_pattern xs e
+  = xbuild param_call_model nest_prefix_model prefix_pattern_model xs e.
+Proof.
+  rewrite <- xbuild_gen_is_model.
+  unfold xbuild_h, xbuild. f_equal. apply map_ext. intros x. unfold xdecl_resolve_h, xdecl_resolve. do 3 f_equal.
+  apply map_ext. intros q. rewrite xresolve_h_gen_is_model.
+  destruct q; cbn [xresolve]; rewrite ?gen_param_call_is_model; reflexivity.
+Qed.
+
+(* request_method=: GET implies HEAD; otherwise exactly the listed methods *)
+Theorem method_get_implies_head vals :
+  mem_text t_GET vals = true -> method_call_model (method_init_model vals) t_HEAD = true.
+Proof.
+  intros H. unfold method_init_model, method_call_model. rewrite H. cbn [andb].
+  destruct (mem_text t_HEAD vals) eqn:E; cbn [negb]; [exact E|].
+  unfold mem_text. rewrite existsb_app. cbn [existsb]. rewrite text_eqb_refl. rewrite orb_true_r. reflexivity.
+Qed.
+
+Theorem method_init_only_adds_head vals m :
+  m <> t_HEAD -> method_call_model (method_init_model vals) m = mem_text m vals.
+Proof.
+  intros H. unfold method_init_model, method_call_model.
+  destruct (mem_text t_GET vals && negb (mem_text t_HEAD vals)); [|reflexivity].
+  unfold mem_text. rewrite existsb_app. cbn [existsb].
+  apply text_eqb_neq in H. rewrite H. rewrite !orb_false_r. reflexivity.
+Qed.
+
+Theorem method_no_get_no_head vals :
+  mem_text t_GET vals = false -> method_call_model (method_init_model vals) t_HEAD = mem_text t_HEAD vals.
+Proof. intros H. unfold method_init_model, method_call_model. rewrite H. reflexivity. Qed.
+
+(* end to end with every request predicate regenerated *)
+Theorem gen_request_spec_y O e xs method raw m sts :
+  let ds := xbuild_h gen_pcalls gen_nest_prefix gen_prefix_pattern xs e in
+  sup_with (spec_parse_m O) ds = true ->
+  connect_all_f (gen_connect (parse_pattern_m O)) empty_mapper 0 ds = (m, sts) ->
+  spec_request_m O (xbuild param_call_model nest_prefix_model prefix_pattern_model xs e) method raw
+  = spec_of_outcome (fst (gen_call (match_pat_m O) m method raw)).
+Proof.
+  intros ds Hs Hc. rewrite <- (xbuild_h_gen_is_model xs e). eapply gen_request_spec_m; eassumption.
+Qed.
+
+(* what the declarative reading of a header= predicate is *)
+Theorem xheader_holds_iff e method d neg vs reqs :
+  header_init_model vs = Some reqs ->
+  (xpred_holds e method d (XHeader neg vs) = true <->
+   (if neg then ~ Forall (header_req_holds (e_orc e) (e_headers e)) reqs
+    else Forall (header_req_holds (e_orc e) (e_headers e)) reqs)).
+Proof.
+  intros Hi. cbn [xpred_holds]. unfold header_verdict. rewrite Hi.
+  destruct (header_call_model (e_orc e) reqs (e_headers e)) eqn:E.
+  - apply header_call_spec in E. destruct neg; cbn; split; intros H; try assumption; try discriminate; try reflexivity.
+    exfalso. apply H. assumption.
+  - destruct neg; cbn; split; intros H; try discriminate; try reflexivity.
+    + intros HF. apply header_call_spec in HF. congruence.
+    + apply header_call_spec in H. congruence.
+Qed.
+
+(* the structural fact regenerated on this run: in the whole package only TraversePredicate.__call__
+   writes to / hands on the dictionary the route matcher produced *)
+Lemma matchdict_single_writer_true : (matchdict_single_writer =? 1)%N = true.
+Proof. vm_compute. reflexivity. Qed.
+
 (* ------------------------------------------------------------ examples *)
 Require Import Coq.Strings.String.
 Local Open Scope string_scope.
@@ -275,3 +435,15 @@ Example param_empty_value_nonvacuous :
   /\ param_parse (T "=k=1") = (T "=k", Some (T "1")).
 Proof. vm_compute. repeat split. Qed.
 
+Example header_nonvacuous :
+  let reqs := header_init_model [T "X-Api-Version:2"; T "Authorization"] in
+  let O := mkOracle (fun _ => false) (fun _ => false) in
+  match reqs with
+  | Some rq =>
+      header_call_model O rq [(T "authorization", T "Bearer-t"); (T "X_API_VERSION", T "22")] = true
+      /\ header_call_model O rq [(T "Authorization", T "Bearer-t")] = false
+      /\ header_call_model O rq [(T "Authorization", T "Bearer-t"); (T "X-Api-Version", T "beta")] = false
+      /\ header_call_model O rq [(T "X-Api-Version", T "2")] = false
+  | None => False
+  end.
+Proof. vm_compute. repeat split. Qed.
